@@ -968,3 +968,24 @@ def np_triu_indices(eng, st, args, kw, node):
 @model('numpy.vstack')
 def np_vstack(eng, st, args, kw, node):
     raise Unsupported("np.vstack needs the stacking contract (handled by a dedicated model)")
+
+
+@model('numpy.argmin')
+def np_argmin(eng, st, args, kw, node):
+    v = args[0]
+    if not (isinstance(v.k, tuple) and v.k[0] == 'arr' and v.k[1] == 1) or kw or len(args) != 1:
+        raise Unsupported("argmin form")
+    used(eng, "np.argmin(1-D) = index of the first minimum (no NaN: floats are reals)")
+    n = eng.arr_shape(st, v)[0]
+    d = eng.arr_data(st, v)
+    if not st.spec:
+        eng.oblige(st, "noexc:argmin-of-empty@L%d" % node.lineno, 'noexc', n > 0, node)
+        st.assume(n > 0)
+    r = z3.Int(fresh_name('argmin'))
+    j = z3.Int(fresh_name('j'))
+    st.assume(z3.And(0 <= r, r < n))
+    st.assume(z3.ForAll([j], z3.Implies(z3.And(0 <= j, j < n), z3.Select(d, r) <= z3.Select(d, j)),
+                        patterns=[z3.Select(d, j)]))
+    st.assume(z3.ForAll([j], z3.Implies(z3.And(0 <= j, j < r), z3.Select(d, r) < z3.Select(d, j)),
+                        patterns=[z3.Select(d, j)]))
+    return vint(r)
